@@ -148,6 +148,10 @@ func ExecPlan(t *testing.T, eng Engine, p *Plan, work string) (o *Outcome) {
 		f()
 	}
 	if !p.Bubble || *fRace {
+		if *fRace {
+			simcore.Free.Store(true)
+			simcore.SeedFree(simcore.Mix(p.Seed, p.Prop, p.Run, "free"))
+		}
 		guard(func() { o = eng.Exec(rc, p) })
 		return o
 	}
